@@ -106,10 +106,13 @@ def statement(case, slot_text):
     if k == "insert":
         ph = case["ph"]
         order = ph if len(ph) == len(COLS) else COLS          # all columns are slots: the column list is in slot order
-        vals = []
-        for c in order:
-            vals.append(slot_text[ph.index(c)] if c in ph else lit(BASE[c]))
-        return "INSERT INTO t (%s) VALUES (%s)" % (", ".join(order), ", ".join(vals))
+        tuples = []
+        for r in range(max(1, case.get("nrows", 1))):            # several VALUES tuples: the slots run on across them
+            vals = []
+            for c in order:
+                vals.append(slot_text[r * len(ph) + ph.index(c)] if c in ph else lit(BASE[c]))
+            tuples.append("(%s)" % ", ".join(vals))
+        return "INSERT INTO t (%s) VALUES %s" % (", ".join(order), ", ".join(tuples))
     if k == "update":
         return "UPDATE t SET %s = %s WHERE %s = %s" % (case["set"], slot_text[0], case["wh"], slot_text[1])
     if k == "delete":
@@ -255,7 +258,7 @@ def vclass(v):
 def template(case):
     k = case["kind"]
     if k == "insert":
-        return "insert(%s)" % ",".join(case["ph"])
+        return "insert%s(%s)" % ("" if case.get("nrows", 1) <= 1 else "_%drows" % case["nrows"], ",".join(case["ph"]))
     if k == "update":
         return "update(set %s where %s)" % (case["set"], case["wh"])
     return "%s(%s)" % (k, case["wh"])
@@ -447,6 +450,8 @@ def run(chk):
               "f_1e22", "f_1e_7", "f_sum", "f_nan", "b_quote", "d_pre_epoch"):
         if not vals[v]:
             raise vlib.ToolError("parameter value class %s never generated" % v)
+    if not any(c["kind"] == "insert" and c.get("nrows", 1) > 1 and c["form"] == "anon" for c in cases):
+        raise vlib.ToolError("no multi-row INSERT with anonymous placeholders generated")
     errs = sum(1 for c in cases if not c["once"]["ok"])
     second_errs = sum(1 for c in cases if c["once"]["ok"] and not c["twice"]["ok"])
     if not errs or not second_errs:
